@@ -341,6 +341,18 @@ def deep_defaults_part(ctx, dist):
     for _ in range(ctx.n(30, 300)):
         shape = rng.choice(sorted(makers))
         make, inner, snap = makers[shape]
+        if rng.random() < 0.6:
+            # an unrelated earlier run in the same process whose node has a default of the SAME container type holding only
+            # immutable members (deep-copying it returns the very object): nothing learnt from it may apply to other values
+            prime = {"tuple": (2, "v0"), "namedtuple": Journal((1, 2), "m"), "nested_tuple": (("k", 0),), "dict": {},
+                     "list_of_lists": [], "instance": None, "frozen_pair": (frozenset({1}), 5)}[shape]
+
+            def primer(x, cfg=prime):
+                return (x, cfg)
+            try:
+                SyncRunner().run(Graph([FunctionNode(primer, name="primer", output_name="p")]), {"x": 0})
+            except Exception:  # noqa: BLE001
+                pass
         default = make()
         pristine = snap(default)
         seen = []
